@@ -401,6 +401,35 @@ func run(c *core.Ctx) {
 				one(Input{Text: scale.Counts(n).Text})
 				one(Input{Text: scale.ManyLeaves(n).Text})
 			}
+			if n <= 64 {
+				// the same keyword in two runs of r1 and n statements, separated by one statement of
+				// another kind (two sizes at once), for leaves, enums, musts and imports
+				for r1 := 1; r1 <= 3; r1++ {
+					leaves := func(from, k int) string {
+						var sb strings.Builder
+						for i := 0; i < k; i++ {
+							fmt.Fprintf(&sb, " leaf l%d { type string; }", from+i)
+						}
+						return sb.String()
+					}
+					enums := func(from, k int) string {
+						var sb strings.Builder
+						for i := 0; i < k; i++ {
+							fmt.Fprintf(&sb, " enum e%d;", from+i)
+						}
+						return sb.String()
+					}
+					musts := func(from, k int) string {
+						var sb strings.Builder
+						for i := 0; i < k; i++ {
+							fmt.Fprintf(&sb, ` must "%d";`, from+i)
+						}
+						return sb.String()
+					}
+					one(Input{Text: `module m { namespace "urn:m"; prefix m; container c {` + leaves(0, r1) + ` container mid; ` + leaves(100, n) + ` p:x y;` + leaves(200, r1) + ` } }`})
+					one(Input{Text: `module m { namespace "urn:m"; prefix m; leaf l { type enumeration {` + enums(0, r1) + ` p:note "x";` + enums(100, n) + ` } ` + musts(0, r1) + ` description d;` + musts(100, n) + ` } }`})
+				}
+			}
 			la, _ := scale.LongArgs(n)
 			one(Input{Text: la.Text})
 			if n <= 300 {
